@@ -20,6 +20,7 @@ func init() {
 			"R19.2 also: the per-route consumer/producer tables are built from the route's own consumes/produces lists, and WithoutJSONDefaults undoes exactly what WithJSONDefaults installs. " +
 			"R19.2 also: the per-method handler table is keyed by the verbatim path the registry enumerates. " +
 			"R19.2 also: the routable API's DefaultConsumes/DefaultProduces/ConsumersFor/ProducersFor answer from the registered API, each from its own field. " +
+			"R19.2 also: Build ranges over the recorded methods themselves. " +
 			"NOT decided: set arithmetic on concrete inputs; the analyzer's requirement lists (go-openapi/analysis).",
 		Run: runC19,
 	})
